@@ -590,3 +590,102 @@ def run_C10(ctx):
     # (d) truncations and byte edits
     add_m3(ctx, "totalbytes", "bytes", "totalbytes", 6000 if q else 120000, params={"step": 7 if q else 1}, shards=(2 if q else vlib.MAX_SHARDS))
     return vlib.finish(ctx, confirm_all)
+
+
+# ====================================================================== C16 / C17 schemas
+
+vlib.TRACE_CFG["Trace_Schema"] = 'CONSTANT Focus = "codec"\n'
+
+
+def _schema_brief(sw):
+    out = []
+    for ns in (sw or {}).get("ns") or []:
+        d = []
+        for e in ns.get("entities") or []:
+            d.append("entity %s%s" % (e["name"], (" in [%s]" % ", ".join((p["q"] + "::" if p["q"] else "") + p["n"] for p in e.get("parents") or [])) if e.get("parents") else ""))
+        for e in ns.get("enums") or []:
+            d.append("entity %s enum" % e["name"])
+        for c in ns.get("commons") or []:
+            d.append("type %s = %s" % (c["name"], json.dumps(c["type"], sort_keys=True)[:120]))
+        for a in ns.get("actions") or []:
+            d.append("action %s%s" % (a["name"], (" in [%s]" % ", ".join((p["q"] + "::" if p["q"] else "") + p["id"] for p in a.get("parents") or [])) if a.get("parents") else ""))
+        out.append("namespace %r { %s }" % (ns.get("name"), "; ".join(d)))
+    return " ".join(out)
+
+
+def describe_schema(ev, obs, entry):
+    o = obs if isinstance(obs, dict) else {}
+    why = "; ".join(str(w) for w in (entry.get("why") or ["?"]))
+    extra = ""
+    if "crash" in o or "panic" in o or "timeout" in o:
+        extra = " [%s]" % (o.get("crash") or o.get("panic") or "deadline")
+    for k in ("text", "json"):
+        v = o.get(k)
+        if isinstance(v, dict) and not v.get("ok", True):
+            extra += " [%s: %s %s]" % (k, v.get("stage"), v.get("err"))
+    r0 = o.get("r0")
+    if isinstance(r0, dict) and "resolution differs" in why:
+        extra += " [real resolution: %s; specification: %s]" % ("ok" if r0.get("ok") else "error `%s`" % r0.get("err"), "ok" if entry.get("specok") else "fails")
+    return "schema %s => %s%s" % (_schema_brief(ev.get("schema"))[:900], why, extra[:600])
+
+
+KINDS["schema"] = dict(module="Trace_Schema", shrink=None, describe=describe_schema)
+
+
+def run_schema(ctx, focus, quick_graph_stride):
+    vlib.TRACE_CFG["Trace_Schema"] = 'CONSTANT Focus = "%s"\n' % focus
+    q = ctx.quick
+    vlib.tlc_check(ctx, "m1.graphs", "MC_SchemaGen", 'INIT Init\nNEXT Next\nCONSTANT Family = "graphs"\nINVARIANT Total\nCHECK_DEADLOCK FALSE\n',
+                   ["mc/MC_SchemaGen.tla"])
+
+    def thin(stride):
+        state = {"k": 0}
+
+        def f(case):
+            return case
+        return f
+    add_gen_exec_validate(ctx, "schema", "names", "MC_SchemaGen", ["mc/MC_SchemaGen.tla"],
+                          cfg=GEN_CFG + 'CONSTANT Family = "names"\nINVARIANT Total\n', min_cases=150, timeout=7200)
+    add_gen_exec_validate(ctx, "schema", "graphs", "MC_SchemaGen", ["mc/MC_SchemaGen.tla"],
+                          cfg=GEN_CFG + 'CONSTANT Family = "graphs"\n', min_cases=3000, timeout=7200)
+
+
+@prop("C17")
+def run_C17(ctx):
+    ctx.rule = ("spec/SchemaModel.tla defines resolution (qualification, RFC 70 shadowing, common-type inlining with cycle rejection, the "
+                "disambiguation order of type references, action parents and action-hierarchy cycles, contexts must be records) as a total "
+                "function from schema ASTs to a resolved schema or failure. M1 (MC_SchemaGen, invariant Total): Resolve is total on the "
+                "universe, fails on exactly the cyclic common-type and action graphs and on none of the entity-parent graphs. Inputs "
+                "enumerated by TLC: EVERY directed graph on three nodes as entity-parent relation, common-type reference relation and "
+                "action `in` relation, in the empty namespace and in a namespace with qualified / unqualified references (3072 schemas); "
+                "the names family (X declared as entity / common type / nothing in the empty namespace and in N x 11 reference forms x "
+                "built-in shadowing); feature schemas (annotations with and without values and odd characters, optional and nested "
+                "attributes, sets, extension types, enumerated entities, names that need quoting, every appliesTo shape, tags). The "
+                "harness resolves the AST with the real resolver, renders it as Cedar schema text and as JSON, parses each back, resolves, "
+                "renders again, and converts text -> JSON and JSON -> text. Trace_Schema: the real resolution = Resolve(schema); every "
+                "round trip parses, resolves to the same resolved schema and repeats the bytes; both conversions commute with "
+                "resolution. distinct = distinct schemas.")
+    ctx.assumptions = ["the two concrete syntaxes are not modelled: the statement is about commuting with resolution",
+                       "an EntityTypeRef in a type position is written like any type name; ASTs where a common type of that name is in "
+                       "scope have no text form and are outside the quantifier",
+                       "deviation of the code followed by the specification: an unreferenced common type is not resolved"]
+    run_schema(ctx, "codec", 1)
+    return vlib.finish(ctx, confirm_all)
+
+
+@prop("C16")
+def run_C16(ctx):
+    ctx.level = "exploration"
+    ctx.rule = ("Same inputs and runs as C17 (every directed graph on three nodes for the entity-parent, common-type and action relations; "
+                "the names and feature families), executed in isolated worker processes: the real Resolve, both codecs, and -- for every "
+                "schema that resolves -- validate.Validator.Policy (strict and permissive) over policies derived from the resolved schema "
+                "(every entity type in every scope form and as `in` / `is` operand, every attribute accessed / tested / compared, every "
+                "action in ==, in and in-set scopes, literals of every kind incl. set / record / extension VALUE nodes, and the same "
+                "policies once more as the JSON decoder builds them), Validator.Entity / Entities over entities filled per declared "
+                "shape and bare ones, Validator.Request per appliesTo combination. Trace_Schema (Focus = total) demands that every run "
+                "returned: a worker death (fatal stack overflow), a panic or a 120 s deadline is a violation. M1: SchemaModel!Resolve is a "
+                "total function on the universe. evaluations = schemas run.")
+    ctx.assumptions = ["termination is a 120 s deadline per schema; crashes are observed, not proved absent",
+                       "policies / entities / requests are derived from each resolved schema by the harness, not enumerated by TLC"]
+    run_schema(ctx, "total", 1)
+    return vlib.finish(ctx, confirm_all)
